@@ -317,6 +317,32 @@ func runWorker(args []string) int {
 				sum.SweepRuns++
 				handle(-1-j, sc, prep, out)
 			}
+			if w.tier == "thorough" && def.SweepScenario != nil {
+				// two preemption points: A to its i-th yield, B to its j-th, A to the end, B to the end
+				stepI := 1 + n/24
+				for i := 1; i <= n; i += stepI {
+					nb := 1
+					for jj := 1; jj <= nb; jj++ {
+						sc := props.SweepScenario2(w.seed, jobs[j], j, i, jj)
+						prep := props.Prepare(sc, true)
+						if len(sc.Tasks) < 2 || len(sc.Tasks[0]) == 0 || len(sc.Tasks[1]) == 0 {
+							break
+						}
+						out := props.Execute(prep, def.hooks(), nil, false)
+						if jj == 1 {
+							nb = countTask(out.Trace, 1)
+							if nb > 32 {
+								nb = 32
+							}
+						}
+						sum.SweepRuns++
+						handle(-1-j, sc, prep, out)
+						if sum.Violations >= maxReportsPerWorker {
+							break
+						}
+					}
+				}
+			}
 		}
 	default:
 		for idx := w.from; w.to <= 0 || idx < w.to; idx += w.stride {
